@@ -170,7 +170,7 @@ Definition implies_max_prevotes32 (v : votes) (b : hdr) : res bool :=
     if negb (h_height b =? i_height nw) then Error 21 else
     if h_height b <=? h_mhg b then Ok false else
     if i_height nw <? h_mhg b then Error 22 else
-    let offset := sub32 (sub32 (i_height nw) (h_mhg b)) 1 in
+    let offset := sub32 (i_height nw) (h_mhg b) in
     match nth_error (v_infos v) (N.to_nat offset) with
     | None => Ok true
     | Some bi => Ok (i_gen bi =? h_gen b)
